@@ -277,7 +277,51 @@ fn store_json_choice(s: &Store, choice: &[u8]) -> J {
     J::Array(arr)
 }
 
+/// A context holding an unknown next to the value: serialisation then goes through the
+/// restricted-expression path instead of the value path (after hand mutant
+/// c10_from_expr_no_reserved_check). Same demands: refuse reserved keys, otherwise round-trip.
+fn check_residual_context(v: &Val, ctx: &Ctx, l: &mut Local) {
+    let reserved = has_reserved_key(v);
+    let rep = || json!({"value": serde_json::to_value(v).unwrap(), "with": "unknown(\"uu\") in the same context"});
+    let pairs = vec![("u".to_string(), cedar_policy::RestrictedExpression::new_unknown("uu")), ("x".to_string(), c_rexpr(v))];
+    let Ok(c) = cedar_policy::Context::from_pairs(pairs) else {
+        ctx.violation("gen:residual-context", "Context::from_pairs refused", rep());
+        return;
+    };
+    l.transitions += 1;
+    l.case(hash_of(&("residual-context", v)), if reserved { "residual-context:reserved-key" } else { "residual-context" }, true);
+    match c.to_json_value() {
+        Err(e) => {
+            if !reserved {
+                ctx.violation(format!("residual-context:serialise-refused:{}", v.kind()), format!("Context::to_json_value refused a representable context holding an unknown: {e}"), rep());
+            }
+        }
+        Ok(j) => {
+            l.transitions += 1;
+            match cedar_policy::Context::from_json_value(j.clone(), None) {
+                Err(e) => ctx.violation(
+                    if reserved { "residual-context:reserved-key-not-refused".to_string() } else { format!("residual-context:reparse-failed:{}", v.kind()) },
+                    format!("Context::to_json_value gave {j}, which does not parse back: {e}"),
+                    rep(),
+                ),
+                Ok(back) => {
+                    if back.to_string() != c.to_string() || back.to_json_value().ok().as_ref() != Some(&j) {
+                        ctx.violation(
+                            if reserved { "residual-context:reserved-key-not-refused".to_string() } else { format!("residual-context:changed:{}", v.kind()) },
+                            format!("JSON round trip changed a context holding an unknown: {c} -> {j} -> {back}"),
+                            rep(),
+                        );
+                    }
+                }
+            }
+        }
+    }
+}
+
 pub fn check_value(v: &Val, tag: Option<&Val>, ctx: &Ctx, l: &mut Local) {
+    if tag.is_none() {
+        check_residual_context(v, ctx, l);
+    }
     let store = datum_store(v, tag);
     let reserved = has_reserved_key(v) || tag.map(has_reserved_key).unwrap_or(false);
     let rep = || json!({"value": serde_json::to_value(v).unwrap(), "tag": tag.map(|t| serde_json::to_value(t).unwrap())});
